@@ -173,3 +173,32 @@ def load_known_findings():
     if not os.path.exists(p):
         return []
     return json.load(open(p))["findings"]
+
+
+# ----------------------------------------------------------------------------- adaptive depth
+def repo_source_hash():
+    """sha256 over the library sources of /repo's working tree (what the harness is rebuilt from)"""
+    import hashlib
+    h = hashlib.sha256()
+    root = os.environ.get("VERIF_REPO", "/repo")
+    files = []
+    for sub in ("pie/src", "graph/src", "pie/Cargo.toml", "graph/Cargo.toml"):
+        pth = os.path.join(root, sub)
+        if os.path.isfile(pth): files.append(pth)
+        for r, _, fs in os.walk(pth):
+            files += [os.path.join(r, f) for f in fs]
+    for f in sorted(files):
+        h.update(os.path.relpath(f, root).encode()); h.update(b"\0")
+        with open(f, "rb") as fh: h.update(fh.read())
+        h.update(b"\0")
+    return h.hexdigest()
+
+
+def depth_factor():
+    """1 on the tree the framework was last calibrated on (tools/pinned.json); 4 when the library sources differ from it:
+    a changed tree is explored more deeply by the same generators (more cases, same streams, same oracles)."""
+    try:
+        pinned = json.load(open(os.path.join(VERIF, "tools", "pinned.json")))["repo_source_hash"]
+    except Exception:
+        return 1
+    return 1 if repo_source_hash() == pinned else int(os.environ.get("VERIF_CHANGED_FACTOR", "4"))
